@@ -105,6 +105,7 @@ Proof.
             | Some _ => false
             | None => fmode_in c && (in_count (fc s0) =? 0)%Z
             end); [cbn; auto|].
+  destruct (loc_out c (trig_of c a)); [cbn; auto|].
   match goal with |- context [if ?b then _ else _] => destruct b end; cbn; auto.
 Qed.
 
